@@ -1,6 +1,7 @@
 //! One function per property: `fn(&mut Check)`.
 
 pub mod e1checks;
+pub mod unit_a;
 
 use crate::runner::{Check, Tier};
 
@@ -13,6 +14,7 @@ pub struct Entry {
 pub fn registry() -> Vec<Entry> {
     let mut v = vec![];
     v.extend(e1checks::entries());
+    v.extend(unit_a::entries());
     v
 }
 
